@@ -41,6 +41,7 @@ func (s resendState) Timeout(session *session, event internal.Event) (nextState 
 }
 
 func (s resendState) FixMsgIn(session *session, msg *Message) (nextState sessionState) {
+	targetBeforeMsg := session.store.NextTargetMsgSeqNum()
 	nextState = inSession{}.FixMsgIn(session, msg)
 
 	if !nextState.IsLoggedOn() {
@@ -73,7 +74,9 @@ func (s resendState) FixMsgIn(session *session, msg *Message) (nextState session
 		}
 	}
 
-	if bool(gapFillFlag) && s.currentResendRangeEnd != 0 && s.currentResendRangeEnd == session.store.NextTargetMsgSeqNum() {
+	// Only a gap fill that was applied counts: one that arrived ahead of sequence is merely kept for later.
+	if bool(gapFillFlag) && s.currentResendRangeEnd != 0 && s.currentResendRangeEnd == session.store.NextTargetMsgSeqNum() &&
+		targetBeforeMsg != session.store.NextTargetMsgSeqNum() {
 		nextResendState, err := session.sendResendRequest(session.store.NextTargetMsgSeqNum(), s.resendRangeEnd)
 		if err != nil {
 			return handleStateError(session, err)
